@@ -134,3 +134,36 @@ func verifC06_closenow() {
 	vAssert(nClose == 0, "C06.closenow.no-close-frame")
 	vObserve("closenow", vWireSummary(t.out))
 }
+
+// C06.result.sched (exploration mode): Close with a CloseRead reader active; the peer echoes the Close frame and hangs
+// up. Whichever goroutine gets to read the echo, under every interleaving within the preemption bound, Close returns nil.
+func verifC06_close_sched() {
+	client := vParam("client", 1) == 1
+	vInstallRand()
+	echo := vFrame{fin: true, opcode: 8, masked: !client, payload: []byte{0x03, 0xe8}}
+	if echo.masked {
+		copy(echo.key[:], vBytes("key", 4))
+	}
+	t := vNewTransport(vEncodeFrame(echo))
+	t.endMode = vEndEOF
+	t.vGate(0, 1) // the echo arrives once our Close frame has been written
+	c := vNewConn(t, client, nil, 16, 64)
+	withCloseRead := vParam("closeread", 1) == 1
+	if withCloseRead {
+		c.CloseRead(vBG)
+		vGhostSettle()
+	}
+	vGhostExplore(vParam("preempt", 2))
+	err := c.Close(StatusNormalClosure, "")
+	vGhostExploreOff()
+	vReach("C06.sched.returned")
+	vAssert(err == nil, "C06.result.nil-on-echo-any-schedule")
+	first, nClose, after, ok := vCloseFrames(t.out)
+	vAssert(vAnd(ok, vAnd(nClose == 1, after == 0)), "C16.sched.single-close-frame")
+	if ok && nClose == 1 {
+		vAssert(len(first) == 2, "C06.sched.close-payload")
+	}
+	vGhostSettle() // goroutines that have signalled completion finish returning
+	vAssert(vGhostGoroutines() == 0, "C20.sched.no-goroutine-left")
+	vObserve("close-sched", nClose)
+}
